@@ -495,6 +495,15 @@ impl<'a, C: Crypto + 'a> CaseInitiator<'a, C> {
         })?;
 
         // Step 7: Build and send Sigma3
+        //
+        // `send_with` can call its closure again for an MRP retransmission. The Sigma3 key is
+        // derived from the transcript hash over Sigma1 || Sigma2; the first run of the closure adds
+        // Sigma3 itself to the transcript, so the hash must be taken once, up front, to keep every
+        // Sigma3 byte-identical (a retransmission encrypted under another key cannot be decrypted by
+        // the responder: the handshake failed whenever the first Sigma3 was lost).
+        let mut s3_tt_hash = crate::crypto::HASH_ZEROED;
+        initiator.casep.current_tt_hash(&mut s3_tt_hash)?;
+
         let mut tt_updated = false;
         exchange
             .send_with(|exchange_ref, tw| {
@@ -503,9 +512,13 @@ impl<'a, C: Crypto + 'a> CaseInitiator<'a, C> {
 
                     tw.start_struct(&TLVTag::Anonymous)?;
                     tw.str_cb(&TLVTag::Context(1), |buf| {
-                        initiator
-                            .casep
-                            .sigma3_encrypt(crypto, fabric, signature.reference(), buf)
+                        initiator.casep.sigma3_encrypt(
+                            crypto,
+                            fabric,
+                            s3_tt_hash.reference(),
+                            signature.reference(),
+                            buf,
+                        )
                     })?;
                     tw.end_container()?;
 
